@@ -15,6 +15,7 @@
 package ggql
 
 import (
+	"math"
 	"time"
 )
 
@@ -43,10 +44,18 @@ func (*timeScalar) CoerceIn(v interface{}) (interface{}, error) {
 	case nil:
 		// leave as nil
 	case float64:
-		secs := int64(tv)
-		v = time.Unix(0, secs*int64(time.Second)).In(time.UTC).Add(time.Duration((tv - float64(secs)) * float64(time.Second)))
+		var t time.Time
+		if t, err = timeFromSecs(tv); err == nil {
+			v = t
+		} else {
+			v = nil
+		}
 	case int64:
-		v = time.Unix(0, tv*int64(time.Second)).In(time.UTC)
+		if _, err = timeFromSecs(float64(tv)); err == nil {
+			v = time.Unix(tv, 0).In(time.UTC)
+		} else {
+			v = nil
+		}
 	case string:
 		var t time.Time
 		if t, err = time.Parse(time.RFC3339Nano, tv); err == nil {
@@ -72,16 +81,26 @@ func (t *timeScalar) CoerceOut(v interface{}) (interface{}, error) {
 	case nil:
 		// remains nil
 	case float64:
-		secs := int64(tv)
-		tt = time.Unix(0, secs*int64(time.Second)).In(time.UTC).Add(time.Duration((tv - float64(secs)) * float64(time.Second)))
+		if tt, err = timeFromSecs(tv); err != nil {
+			v = nil
+		}
 	case int64:
-		tt = time.Unix(0, tv*int64(time.Second)).In(time.UTC)
+		if _, err = timeFromSecs(float64(tv)); err != nil {
+			v = nil
+		} else {
+			tt = time.Unix(tv, 0).In(time.UTC)
+		}
 	case string:
 		if tt, err = time.Parse(time.RFC3339Nano, tv); err != nil {
 			v = nil
 		}
 	case time.Time:
 		tt = tv
+		if y := tv.In(time.UTC).Year(); y < 0 || 9999 < y {
+			// RFC 3339 has four digits for the year.
+			err = newCoerceErr(v, "Time")
+			v = nil
+		}
 	default:
 		err = newCoerceErr(v, "Time")
 		v = nil
@@ -90,4 +109,21 @@ func (t *timeScalar) CoerceOut(v interface{}) (interface{}, error) {
 		v = tt.In(time.UTC).Format(time.RFC3339Nano)
 	}
 	return v, err
+}
+
+// The seconds since the epoch of the first and the last second an RFC 3339
+// text can name, years 0000 and 9999.
+const (
+	minTimeSecs = -62167219200
+	maxTimeSecs = 253402300799
+)
+
+// timeFromSecs converts seconds since the epoch to a time if it is a time
+// that can be written according to RFC 3339.
+func timeFromSecs(f float64) (time.Time, error) {
+	if math.IsNaN(f) || f < minTimeSecs || maxTimeSecs+1 <= f {
+		return time.Time{}, newCoerceErr(f, "Time")
+	}
+	secs := math.Floor(f)
+	return time.Unix(int64(secs), int64((f-secs)*float64(time.Second))).In(time.UTC), nil
 }
